@@ -19,7 +19,7 @@ func (self *BinaryConv) do(ctx context.Context, src []byte, desc *proto.TypeDesc
 	//NOTICE: output buffer must be larger than src buffer
 	rt.GuardSlice(buf, len(src)*_GUARD_SLICE_FACTOR)
 	if err := self.unmarshal(src, buf, desc); err != nil {
-		return meta.NewError(meta.ErrConvert, fmt.Sprintf("json convert to protobuf failed, MessageDescriptor: %v", desc.Message().Name()), err)
+		return meta.NewError(meta.ErrConvert, fmt.Sprintf("json convert to protobuf failed, MessageDescriptor: %v", desc.Name()), err)
 	}
 	return nil
 }
